@@ -1064,6 +1064,7 @@ func runC10(c *core.Ctx) core.Meta {
 	checkClampAgreement(c, "R10.25", "In the distributor the value is the number of GPUs the even share is dealt to: clamped under a test against the page count it is never clamped, the dealing loop runs past the GPU list and the driver panics after it has re-homed part of the buffer.", 1, pd)
 	checkNoListCopy(c, "R10.26", pint)
 	checkUnifiedPageFromGPUWithRoom(c)
+	checkUniversalScan(c, "R10.28", "deviceBuddyMemoryState.noAvailablePAddrs walks every level of the free lists - its loop bound is the length of freeList itself - and leaves with false from the arm where a level is not empty. Bounded one short, a device whose only free block is at the top level is taken for full: the allocation panics, or the page is placed elsewhere, while the memory is there", "amd/driver/internal", "deviceBuddyMemoryState.noAvailablePAddrs", "freeList", "Len()")
 	return core.Meta{Level: "other",
 		Explanation: "Structural clauses of device memory management: a lockset analysis of the allocator (every field access under the embedded mutex, helpers only from lock-holding call sites), pairing of every page-table write with the allocator's vAddr mirror and who-may-write the page table, physical addresses taken only from the device memory state, no container mutated while ranged in the driver packages, page-granular cursor and size arithmetic, Free looping over exactly the page count recorded at allocation, and the key shape of the allocator's page maps.",
 		NotDecided:  "invariants over allocate/free/remap histories (disjointness of live physical pages, buddy-allocator merging): these are state-machine properties beyond structural rules",
